@@ -956,10 +956,6 @@ def should_diag(c, rec):
 def known_finding(c, rec, ns_eval):
     """-> finding id when the failing case falls under a recorded guard clause AND the
     implementation behaves as the faithful description predicts; else None"""
-    if c[0] == "narrow" and c[1] == "callable" and callable(ns_eval(c[2])):
-        # after a true callable(x) a known class is replaced by the type Callable[..., Any]: its attributes and its
-        # subscripting are then judged on that type, not on the object
-        return "C19-callable-narrowing-forgets-known-object"
     if c[0] == "narrow":
         # the operation itself, with the variable replaced by the operand it holds
         op = tuple(c[2] if (isinstance(x, str) and x == "x") else x for x in c[5])
@@ -1011,10 +1007,6 @@ def known_finding(c, rec, ns_eval):
 
         if isinstance(obj, type) and issubclass(obj, enum.Enum):
             return "C19-enum-class-subscript-nonstr-key"
-    if k in ("sub", "seq") and "internal_error" in rec["codes"]:
-        key = parse_key(c[2] if k == "sub" else c[3])
-        if key is not None and key[0] == "slice" and key[1][2] == 0:
-            return "C19-slice-step-zero-internal-error"
     return None
 
 
@@ -1137,9 +1129,9 @@ def judge(cases, recs, models, rep, findings_text):
                 else:
                     why = f"unexpected model result {m} for a literal tuple"
             else:
-                if m == "SCrash":
-                    if "internal_error" not in rec["codes"]:
-                        why = "model: members[slice] raises inside the checker; checker: no internal_error"
+                if m == "SGeneric":
+                    if diag or rec["inferred"]["k"] != "generic":
+                        why = f"model: generic fallback (step 0), checker: {rec['codes']} {rec['inferred']}"
                 elif isinstance(m, tuple) and m[0] == "SMembers":
                     want = [rec["sub"]["elems"][i] for i in m[1]] if "elems" in rec["sub"] else None
                     if diag:
@@ -1153,7 +1145,7 @@ def judge(cases, recs, models, rep, findings_text):
             if m == "ROutOfRange":
                 if not diag:
                     why = "model: out of range, checker: no diagnostic"
-            elif diag and m != "SCrash":
+            elif diag:
                 why = f"model: {m}, checker: diagnostic {rec['codes']}"
             elif isinstance(m, tuple) and m[0] == "RMember":
                 if got != {c[2][m[1]][1]}:
@@ -1175,9 +1167,6 @@ def judge(cases, recs, models, rep, findings_text):
             elif m == "SGeneric":
                 if rec["inferred"]["k"] != "generic":
                     why = f"model: generic fallback, checker inferred {rec['inferred']}"
-            elif m == "SCrash":
-                if "internal_error" not in rec["codes"]:
-                    why = "model: members[slice] raises inside the checker; checker: no internal_error"
         if why:
             corr.append((c, rec, m, why))
         else:
